@@ -2852,7 +2852,10 @@ func (d *decoderSimpleBytes) arrayEnd() {
 func (d *decoderSimpleBytes) interfaceExtConvertAndDecode(v interface{}, ext InterfaceExt) {
 
 	var vv interface{}
+
+	d.depthIncr()
 	d.decode(&vv)
+	d.depthDecr()
 	ext.UpdateExt(v, vv)
 
 }
@@ -6635,7 +6638,10 @@ func (d *decoderSimpleIO) arrayEnd() {
 func (d *decoderSimpleIO) interfaceExtConvertAndDecode(v interface{}, ext InterfaceExt) {
 
 	var vv interface{}
+
+	d.depthIncr()
 	d.decode(&vv)
+	d.depthDecr()
 	ext.UpdateExt(v, vv)
 
 }
